@@ -25,7 +25,8 @@ var c12Space = mkSpace("attribute-query", []fieldDim{
 	{"Dest", []string{"", "absent", "sso-location", "foreign", "prefixed-advertised", "prefixed-foreign"}},
 	{"Subject", []string{"", "bob", "unknown", "absent"}},
 	{"Attrs", []string{"", "email", "email-nofmt", "email-wrongfmt", "custom", "custom-wrongfmt", "unknown", "email+email", "email+username", "unknown+email", "email+custom+email", "all-unknown", "custom2", "collide-fmt+name", "collide-name+fmt", "collide-std-nofmt", "collide-std-noname", "collide-swapped"}},
-	{"User", []string{"", "no-email", "only-username", "no-custom", "two-custom", "custom-novalues", "custom-named-email"}},
+	// (the 15 separator-collision lists are crossed with the user shape "sep-names" in the list x record product below)
+	{"User", []string{"", "no-email", "only-username", "no-custom", "two-custom", "custom-novalues", "custom-named-email", "sep-names"}},
 	{"Prefix", []string{"", "default", "odd"}},
 	{"IssuerCfg", []string{"", "host"}},
 	{"AttrEp", []string{"", "custom", "external"}},
@@ -80,8 +81,21 @@ func userMarkers(u *world.User) []string {
 	return m
 }
 
-func c12Judge(p aqP) c12Verdict {
+func c12Judge(p aqP) c12Verdict { return c12JudgeHist(p, "") }
+
+// c12JudgeHist: hist "after-unregister" = the same query was answered once, then the requester was removed from the
+// registry (environment event), then the query is sent again on the same provider: it is now an unregistered issuer.
+// hist "after-a-query" = the same query was answered once before (state kept by the IdP must not change the answer).
+func c12JudgeHist(p aqP, hist string) c12Verdict {
 	w, req, t := aqBuild(p)
+	if hist != "" {
+		w.Do(req)
+		if hist == "after-unregister" {
+			w.Store.UnregisterSP(t.Requester)
+			t.IssuerRegistered = false
+		}
+		_, req, _ = aqBuild(p)
+	}
 	rep := w.Do(req)
 	v := c12Verdict{Detail: map[string]any{}}
 	bad := func(c string) { v.Clauses = append(v.Clauses, c) }
@@ -254,20 +268,26 @@ func xmlEsc(s string) string {
 
 var _ = xt.NSSaml
 
+type c12Replay struct {
+	P    aqP    `json:"p"`
+	Hist string `json:"history,omitempty"`
+}
+
 func init() { Registry["C12"] = runC12 }
 
 func runC12(ctx Ctx) int {
 	world.PinClock()
 	run := ev.NewRun("C12")
-	run.Rule = "every assignment of 14 attribute-query dimensions (Issuer, signature none/valid/bit-flipped/edited/foreign key/stripped, Destination variants incl. namespace-prefixed, subject, 18 requested-attribute list shapes incl. duplicates, wrong formats and (Name, NameFormat) pairs whose concatenations collide with an attribute of the user, 7 user-record shapes, serialisation, issuer/endpoint configuration) with <= k deviations (k=3 quick, 4 thorough) plus the full product requested-list x user-record; one execution = fresh provider + one real SOAP request; reply decoded with xt and verified with two independent XML-DSig verifiers"
+	run.Rule = "every assignment of 14 attribute-query dimensions (Issuer, signature none/valid/bit-flipped/edited/foreign key/stripped, Destination variants incl. namespace-prefixed, subject, 18 requested-attribute list shapes incl. duplicates, wrong formats and (Name, NameFormat) pairs whose concatenations collide with an attribute of the user, 7 user-record shapes, serialisation, issuer/endpoint configuration) with <= k deviations (k=3 quick, 4 thorough) plus the full product requested-list x user-record, 15 separator-collision lists (| : / # space , ; = @ + - . _ ~ !) against a user whose custom attribute names / formats contain the separator, and two-step histories on one provider (the same query answered before; requester unregistered after a first answer); one execution = fresh provider + one real SOAP request; reply decoded with xt and verified with two independent XML-DSig verifiers"
 	run.Assume = []string{"user data here is plain ASCII except one '&' value; metacharacters in signed data are C04's alphabet (signature clause skipped for such records)"}
 	if ctx.Replay != "" {
-		var p aqP
-		if err := loadReplay(ctx.Replay, &p); err != nil {
+		var rp c12Replay
+		if err := loadReplay(ctx.Replay, &rp); err != nil {
 			fmt.Println("replay:", err)
 			return 2
 		}
-		v := c12Judge(p)
+		p := rp.P
+		v := c12JudgeHist(p, rp.Hist)
 		fmt.Printf("replay C12: %+v -> class=%s clauses=%v detail=%v\n", p, v.Class, v.Clauses, v.Detail)
 		if len(v.Clauses) > 0 {
 			fmt.Printf("VIOLATION property=C12 replay=%s\n", ctx.Replay)
@@ -282,6 +302,7 @@ func runC12(ctx Ctx) int {
 	type item struct {
 		p      aqP
 		labels []string
+		hist   string
 	}
 	var items []item
 	seen := map[string]bool{}
@@ -290,7 +311,7 @@ func runC12(ctx Ctx) int {
 		key := fmt.Sprint(vec)
 		if c12Valid(p) && !seen[key] {
 			seen[key] = true
-			items = append(items, item{p, c12Space.Labels(vec)})
+			items = append(items, item{p, c12Space.Labels(vec), ""})
 		}
 	}
 	c12Space.EnumK(k, func(vec []int) bool { add(vec); return true })
@@ -308,17 +329,36 @@ func runC12(ctx Ctx) int {
 			}
 		}
 	}
+	// separator collisions: 15 lists x the user record whose custom attributes contain the separators
+	for i := range aqSeps {
+		for _, u := range []string{"sep-names", ""} {
+			p := aqP{Attrs: fmt.Sprintf("collide-sep:%d", i), User: u}
+			items = append(items, item{p, []string{fmt.Sprintf("Attrs=collide-sep:%q", aqSeps[i]), "User=" + u}, ""})
+		}
+	}
+	// histories on one provider: every k<=1 shape (and the list x record product) after the same query / after the
+	// requester was unregistered
+	nSingle := len(items)
+	for i := 0; i < nSingle; i++ {
+		it := items[i]
+		if len(it.labels) > 2 {
+			continue
+		}
+		for _, h := range []string{"after-a-query", "after-unregister"} {
+			items = append(items, item{it.p, append(append([]string{}, it.labels...), "history="+h), h})
+		}
+	}
 	deadline := devx.Deadline(map[string]time.Duration{"quick": 4 * time.Minute, "thorough": 20 * time.Minute}[run.Tier])
 	_, complete := parallel(len(items), deadline, func(i int) {
 		it := items[i]
-		v := c12Judge(it.p)
+		v := c12JudgeHist(it.p, it.hist)
 		run.Evaluations.Add(1)
 		run.Outcome(v.Class)
 		seenC := map[string]bool{}
 		for _, c := range v.Clauses {
 			if !seenC[c] {
 				seenC[c] = true
-				run.Violate(c, "attribute-query", it.labels, v.Detail, it.p)
+				run.Violate(c, "attribute-query", it.labels, v.Detail, c12Replay{it.p, it.hist})
 			}
 		}
 	})
